@@ -520,6 +520,33 @@ func (x *Exec) stub(fn *ssa.Function, args []Val, site string) (Val, bool) {
 		return StrV{Opaque: true}, true
 	case "fmt.Errorf":
 		return x.opaqueErr(), true
+	case "fmt.Fprintf", "fmt.Fprint", "fmt.Fprintln":
+		// formatted text (content modelled only when it is concrete or spliceable) written with ONE Write call
+		w := args[0].(IfaceV)
+		if w.T == nil {
+			panic(panicV{msg: "fmt.Fprintf to a nil writer"})
+		}
+		var text StrV
+		if name == "fmt.Fprintf" {
+			text, _ = x.sprintf(args[1], sliceVals(args[2])).(StrV)
+		} else {
+			text = StrV{Opaque: true}
+		}
+		if text.Opaque {
+			text = cstr("<formatted text>")
+			x.stubsUsed["fmt.Fprintf (opaque text written as a placeholder)"] = true
+		}
+		buf := x.convert(text, types.Typ[types.String], types.NewSlice(types.Typ[types.Byte]))
+		var wm *types.Func
+		ms := x.w.prog.MethodSets.MethodSet(w.T)
+		if sel := ms.Lookup(nil, "Write"); sel != nil {
+			wm = sel.Obj().(*types.Func)
+		}
+		if wm == nil {
+			panic(unsupported{"fmt.Fprintf: writer without Write"})
+		}
+		res := x.call(FuncV{Fn: x.methodFor(w.T, wm)}, []Val{w.V, buf}, site)
+		return res, true
 	case "fmt.Println", "fmt.Printf", "fmt.Print":
 		return TupleV{cbv(64, 0), IfaceV{}}, true
 	case "(*strings.Builder).WriteString":
@@ -626,34 +653,17 @@ func (x *Exec) stub(fn *ssa.Function, args []Val, site string) (Val, bool) {
 			return cstr(strconv.Itoa(int(sext(b)))), true
 		}
 		return StrV{Opaque: true}, true
-	// ---- syslog: logging is not the subject; Panic*/Fatal* keep their control effect (default level)
-	case "github.com/go-kid/ioc/syslog.Pref":
-		x.stubsUsed["syslog (no-op logging)"] = true
-		return IfaceV{T: x.w.loggerType, V: PtrV{}}, true
-	case "github.com/go-kid/ioc/syslog.New":
-		return IfaceV{T: x.w.loggerType, V: PtrV{}}, true
-	case "(*github.com/go-kid/ioc/syslog.logger).Panic", "(*github.com/go-kid/ioc/syslog.logger).Panicf":
-		panic(panicV{msg: "syslog.Panic at " + site})
-	case "(*github.com/go-kid/ioc/syslog.logger).Fatal", "(*github.com/go-kid/ioc/syslog.logger).Fatalf":
-		panic(abortPath{"syslog.Fatal -> os.Exit"})
-	}
-	if strings.HasPrefix(name, "(*github.com/go-kid/ioc/syslog.logger).") {
-		switch fn.Name() {
-		case "Level", "Pref":
-			return IfaceV{T: x.w.loggerType, V: PtrV{}}, true
-		}
+	case "(*log.Logger).Printf", "(*log.Logger).Println", "(*log.Logger).Print", "(*log.Logger).Output":
+		// the stdlib logger's own locking and I/O are outside; one call = one atomic step
+		x.visible()
 		return nil, true
 	}
-	if strings.HasPrefix(name, "github.com/go-kid/ioc/syslog.") && fn.Name() != "init" {
-		switch fn.Name() {
-		case "Panic", "Panicf":
-			panic(panicV{msg: "syslog.Panic at " + site})
-		case "Fatal", "Fatalf":
-			panic(abortPath{"syslog.Fatal -> os.Exit"})
-		case "Level", "SetLogger":
-			return nil, true
+	if !x.opts.RealSyslog {
+		if r, ok := x.syslogStub(fn, name, args, site); ok {
+			return r, true
 		}
-		return nil, true
+	} else if name == "log.New" {
+		return PtrV{C: &Cell{V: cbv(64, 0)}}, true
 	}
 	if r, ok := x.libStub(fn, args, site); ok {
 		return r, true
@@ -688,6 +698,40 @@ func (x *Exec) hbAtomic(c *Cell) {
 	x.cur.vc.join(vc)
 	vc.join(x.cur.vc)
 	x.cur.vc[x.cur.id]++
+}
+
+// syslogStub: logging is not the subject; Panic*/Fatal* keep their control effect (default level)
+func (x *Exec) syslogStub(fn *ssa.Function, name string, args []Val, site string) (Val, bool) {
+	switch name {
+	case "github.com/go-kid/ioc/syslog.Pref":
+		x.stubsUsed["syslog (no-op logging)"] = true
+		return IfaceV{T: x.w.loggerType, V: PtrV{}}, true
+	case "github.com/go-kid/ioc/syslog.New":
+		return IfaceV{T: x.w.loggerType, V: PtrV{}}, true
+	case "(*github.com/go-kid/ioc/syslog.logger).Panic", "(*github.com/go-kid/ioc/syslog.logger).Panicf":
+		panic(panicV{msg: "syslog.Panic at " + x.here(site)})
+	case "(*github.com/go-kid/ioc/syslog.logger).Fatal", "(*github.com/go-kid/ioc/syslog.logger).Fatalf":
+		panic(abortPath{"syslog.Fatal -> os.Exit"})
+	}
+	if strings.HasPrefix(name, "(*github.com/go-kid/ioc/syslog.logger).") {
+		switch fn.Name() {
+		case "Level", "Pref":
+			return IfaceV{T: x.w.loggerType, V: PtrV{}}, true
+		}
+		return nil, true
+	}
+	if strings.HasPrefix(name, "github.com/go-kid/ioc/syslog.") && fn.Name() != "init" {
+		switch fn.Name() {
+		case "Panic", "Panicf":
+			panic(panicV{msg: "syslog.Panic at " + x.here(site)})
+		case "Fatal", "Fatalf":
+			panic(abortPath{"syslog.Fatal -> os.Exit"})
+		case "Level", "SetLogger":
+			return nil, true
+		}
+		return nil, true
+	}
+	return nil, false
 }
 
 // visible marks a visible operation of the interleaving discipline.
